@@ -201,6 +201,19 @@ CLAIMED = {
         "against glibc by this correspondence. Tab widths above 15 are clamped by the setter (C05).",
    technique="Coq proof (structural decomposition of the serializer, induction over the nested tree) + byte-exact correspondence",
    ref="5 (C19)"),
+ "C20": dict(
+   text="PARTIAL. Proved (Properties_C20.v, closed under the global context): the refill logic of the scanner - carry "
+        "DFA state, position and best candidate across refills, decide only at a jam or at end of input (Chunked.v) - "
+        "selects, for every way of cutting the input into chunks, exactly what the matcher selects on the concatenation "
+        "(induction over the chunk list, generic in the tables); config_read_file on a regular file is config_read on its "
+        "bytes with the file name recorded; in the model the string and stream entry points are the same function. The "
+        "pointer arithmetic of yy_get_next_buffer (memmove, buffer growth, YY_INPUT through fread) is not modelled: on every "
+        "run each token kind is slid across the 8/16/24/32 KiB positions and the text is read through "
+        "config_read_string, fmemopen, cookie streams delivering 1..8193-byte pieces, and config_read_file; outcomes are "
+        "compared pairwise and with the model, including an @include followed by more than one read block.",
+   note="NUL-free inputs, as the property states (config_read_string stops at a NUL by construction).",
+   technique="Coq proof (chunk-composition lemma for the DFA run, induction over chunks) + sliding-offset correspondence (partial)",
+   ref="5 (C20)"),
 }
 
 REASON_PENDING = "not decided in the committed state of this round: the Coq theorem for this property is not yet in the tree, and a property is never claimed on testing alone (DESIGN.md section 11)"
